@@ -94,9 +94,11 @@ def tensordot_units(tier, syms=None):
     ]
     if not th:
         shapes = [(2, 2, (1,), (0,)), (2, 2, (0, 1), (1, 0)), (3, 2, (0,), (1,)), (2, 3, (1,), (1,)), (1, 1, (), ()),
-                  (3, 1, (1,), (0,)), (2, 1, (1,), (0,)), (2, 2, (), ())]   # the last: >= 2 blocks of each operand in one contracted sector
+                  (3, 1, (1,), (0,)), (2, 1, (1,), (0,)), (2, 2, (), ()),   # the last: >= 2 blocks of each operand in one contracted sector
+                  (3, 3, (1, 2, 0), (0, 1, 2)), (4, 3, (2, 3, 1), (0, 1, 2))]   # three contracted legs listed in a CYCLIC order (not its own inverse)
     if th:
-        shapes += [(3, 3, (2,), (0,)), (4, 2, (1, 3), (1, 0)), (3, 3, (0, 1, 2), (2, 1, 0)), (2, 2, (), ())]
+        shapes += [(3, 3, (2,), (0,)), (4, 2, (1, 3), (1, 0)), (3, 3, (0, 1, 2), (2, 1, 0)), (2, 2, (), ()),
+                   (3, 3, (1, 2, 0), (0, 1, 2)), (4, 3, (2, 3, 1), (0, 1, 2)), (4, 4, (3, 1, 2), (1, 2, 0))]
     for sym in syms:
         for (nd_a, nd_b, in_a, in_b) in shapes:
             for lt_a, lt_b in ([(1, 1), (2, 1), (1, 2), (2, 2), (0, 1), (0, 0)] + ([(3, 2), (2, 3)] if th else [])):
